@@ -20,6 +20,15 @@ impl<'a> DirectEventAccessor<'a> {
         self.event.get_field_value(field)
     }
 
+    /// Get a field value as an f64 (a Float64 payload cell has no i64 view)
+    #[inline]
+    pub fn get_field_as_f64(&self, field: &str) -> Option<f64> {
+        match self.event.payload.get(field) {
+            Some(crate::engine::types::ScalarValue::Float64(f)) => Some(*f),
+            _ => None,
+        }
+    }
+
     /// Get a field value as an i64, with fallback parsing for string numbers
     #[inline]
     pub fn get_field_as_i64(&self, field: &str) -> Option<i64> {
